@@ -2079,8 +2079,11 @@ class ImportManager:
     # would bind it (e.g. `import gin.tf`, recorded from a file that doesn't use
     # dynamic registration) has to be given an alias like any colliding name.
     self.names = {'gin'} if self.dynamic_registration else set()
-    # Prefer to order `from` style imports first.
-    for statement in sorted(imports, key=lambda s: (s.module, not s.is_from)):
+    # Prefer to order `from` style imports first. (The alias breaks ties between
+    # several imports of one module, of which only the first is kept: `imports`
+    # may be a set, whose iteration order must not decide that.)
+    for statement in sorted(
+        imports, key=lambda s: (s.module, not s.is_from, s.alias or '')):
       self.add_import(statement)
 
   @property
